@@ -12,6 +12,7 @@ as KNOWN-FINDING when known_findings.json has an open entry with "kf": "kf_onrea
 for property C14, and as a violation (replay file = the table row) otherwise.
 """
 import os, re, json, subprocess, tempfile, shutil, fcntl
+import vosync
 
 GO = 'go1.26.8'
 
@@ -35,10 +36,15 @@ def compile_props(ROOT):
             if os.path.exists(vo):
                 os.remove(vo)
             listed = 'theories/Props/C14s.v' in open(os.path.join(coq, '_CoqProject')).read()
-            if listed and os.path.exists(os.path.join(coq, 'Makefile')):
-                r = sh(['timeout', '1800', 'make', '-j8', rel], cwd=coq)
-            else:
-                r = sh(['timeout', '900', 'coqc', '-Q', 'theories', 'GM', 'theories/Props/C14s.v'], cwd=coq)
+            # every .vo is tied to the text of its .v before make looks at time stamps (bin/vosync.py)
+            st = vosync.pre(ROOT)
+            try:
+                if listed and os.path.exists(os.path.join(coq, 'Makefile')):
+                    r = sh(['timeout', '1800', 'make', '-j8', rel], cwd=coq)
+                else:
+                    r = sh(['timeout', '900', 'coqc', '-Q', 'theories', 'GM', 'theories/Props/C14s.v'], cwd=coq)
+            finally:
+                vosync.post(ROOT, st)
             return r.returncode == 0, r.stdout
         finally:
             fcntl.flock(lk, fcntl.LOCK_UN)
